@@ -159,7 +159,7 @@ theorem step_inv (v v' : Svc) (st : Step) (h : SInv v) (hs : step v st = some v'
           simp only [Option.some.injEq] at hr'
           subst hr'
           intro e; rw [e] at hne; exact hne rfl
-  | execFail =>
+  | execFail k =>
     simp only [step] at hs
     split at hs
     · cases hs
